@@ -274,3 +274,36 @@ def param_argument(ctx, caller: Func, helper: Func, param: str):
             if v is not None:
                 out.append(v)
     return out
+
+
+def single_assignment(func, name: str) -> Optional[ast.AST]:
+    """The value of local *name* when it is bound exactly once in func, by a
+    plain `name = value` statement (copy propagation for temporaries that a
+    refactoring introduces); None otherwise."""
+    fn = func.node if hasattr(func, 'node') else func
+    stores, value = 0, None
+    for n in ast.walk(fn):
+        if isinstance(n, ast.Name) and n.id == name and \
+                isinstance(n.ctx, (ast.Store, ast.Del)):
+            stores += 1
+        elif isinstance(n, ast.ExceptHandler) and n.name == name:
+            stores += 1
+        if isinstance(n, ast.Assign) and len(n.targets) == 1 and \
+                isinstance(n.targets[0], ast.Name) and n.targets[0].id == name:
+            value = n.value
+    if name in getattr(func, 'params', []):
+        return None
+    return value if stores == 1 else None
+
+
+def through_copies(func, expr, steps: int = 3):
+    """Follow single-assignment local copies: x -> value of `x = value`."""
+    for _ in range(steps):
+        if isinstance(expr, ast.Name):
+            v = single_assignment(func, expr.id)
+            if v is None:
+                break
+            expr = v
+        else:
+            break
+    return expr
